@@ -13,7 +13,7 @@ from nix_manipulator.expressions.expression import NixExpression
 from nix_manipulator.expressions.function.call import FunctionCall
 from nix_manipulator.expressions.function.definition import FunctionDefinition
 from nix_manipulator.expressions.identifier import Identifier
-from nix_manipulator.expressions.layout import empty_line, linebreak
+from nix_manipulator.expressions.layout import empty_line, linebreak, point_row
 from nix_manipulator.expressions.let import LetExpression
 from nix_manipulator.expressions.parenthesis import Parenthesis
 from nix_manipulator.expressions.raw import RawExpression
@@ -124,7 +124,7 @@ class NixSourceCode:
                 """Inline comments stay on the previous expression line."""
                 return (
                     prev is not None
-                    and comment_node.start_point.row == prev.end_point.row
+                    and point_row(comment_node.start_point) == point_row(prev.end_point)
                     and bool(items)
                 )
 
